@@ -638,15 +638,16 @@ def merge_reports(reps):
     return total
 
 
-def violations_from(target, total, shrink_budget=40):
-    """one violation per (rule, class); the witness is the smallest example, shrunk."""
+def violations_from(target, total, shrink_budget=40, known=()):
+    """one violation per (rule, class); the witness is the smallest example, shrunk (examples of
+    signatures listed in `known` - already recorded findings - are not shrunk again)."""
     out = []
     for key in sorted(total["problems"]):
         slot = total["problems"][key]
         ex = slot["examples"][0]
         rule, cls = slot["rule"], slot["cls"]
         shrunk = ex["text"]
-        if rule != "harness":
+        if rule != "harness" and "%s/%s/%s" % (target.pid, rule, cls) not in known:
             try:
                 toks = lex_tokens(ex["text"])
                 res0 = run_tool(target.mode, [join_tokens(toks)])[0]
